@@ -920,6 +920,29 @@ func (t *FnTrans) instr(in ssa.Instruction) {
 		t.unop(x)
 	case *ssa.Convert:
 		t.convert(x)
+	case *ssa.MultiConvert:
+		// conversion inside a generic body whose type parameter has several core types: decided by the instantiation
+		from, to := t.resolve(x.X.Type()), t.resolve(x.Type())
+		_, fromTP := from.(*types.TypeParam)
+		_, toTP := to.(*types.TypeParam)
+		fi, fok := intInfoOf(from)
+		ti, tok := intInfoOf(to)
+		switch {
+		case fromTP || toTP:
+			t.fail("MultiConvert on an uninstantiated type parameter (instantiate the contract)")
+		case fok && tok:
+			a := t.term(x.X)
+			if ti.bits > fi.bits && (fi.signed == ti.signed || !fi.signed) || ti == fi {
+				t.bind(x, a)
+			} else {
+				t.bind(x, ti.wrap(a))
+			}
+		case t.sortOf(from) == t.sortOf(to) && t.sortOf(to) != "Float":
+			t.vals[x] = t.val(x.X)
+		default:
+			t.abstr["float"] = true
+			t.havocVal(x)
+		}
 	case *ssa.ChangeType:
 		v := t.val(x.X)
 		t.vals[x] = v
@@ -1106,8 +1129,6 @@ func (t *FnTrans) instr(in ssa.Instruction) {
 			}
 		}
 		t.abstr["slice-to-array conversion: the array value is unconstrained"] = true
-	case *ssa.MultiConvert:
-		t.fail("MultiConvert unsupported")
 	default:
 		t.fail("unsupported instruction %T: %s", in, in)
 	}
